@@ -27,6 +27,8 @@ pub(crate) trait ErasedVariable: Debug + NotObserver + KindTrait {
     fn id(&self) -> NodeId;
     fn break_rc_cycle(&self);
     fn set_at(&self) -> StabilisationNum;
+    #[cfg(cormacrelf_incremental_rs_verif)]
+    fn verif_var(&self) -> (String, Option<String>);
 }
 
 impl<T: Value> ErasedVariable for Var<T> {
@@ -46,6 +48,18 @@ impl<T: Value> ErasedVariable for Var<T> {
     }
     fn set_at(&self) -> StabilisationNum {
         self.set_at.get()
+    }
+    #[cfg(cormacrelf_incremental_rs_verif)]
+    fn verif_var(&self) -> (String, Option<String>) {
+        let cell = match self.value.try_borrow() {
+            Ok(v) => format!("{:?}", &*v),
+            Err(_) => "<borrowed>".to_string(),
+        };
+        let pending = match self.value_set_during_stabilisation.try_borrow() {
+            Ok(p) => p.as_ref().map(|p| format!("{:?}", p)),
+            Err(_) => Some("<borrowed>".to_string()),
+        };
+        (cell, pending)
     }
 }
 
